@@ -160,10 +160,13 @@ def cn_ensures(s):
 def cn_result(ctx, s):
     if not isinstance(s.config, SymDict):
         r = s.k
-    elif isinstance(s.k, str):
-        r = fresh_str(ctx, "canon")
     else:
-        r = fresh_str(ctx, "canon")
+        # canonical_name is a function of (key, state of the dict): the same arguments give the same result
+        memo = ctx.ghost.setdefault("cn_memo", {})
+        mk = (sterm(s.k).get_id(), s.config.tree().get_id())
+        r = memo.get(mk)
+        if r is None:
+            r = memo[mk] = fresh_str(ctx, "canon")
     ctx.ghost.setdefault("cn_calls", []).append((s.k, s.config, r, s.config.tree() if isinstance(s.config, SymDict) else None))
     return r
 
@@ -186,7 +189,7 @@ def fresh_value(ctx, name="value", allow_mapping=True):
     return Leaf(ctx.fresh(name, "int"))
 
 
-def as_setup(ctx):
+def as_setup(ctx, wheres=("d=store", "d=section-of-store", "d=other-dict")):
     init_ctx(ctx)
     n = 1
     depth = ctx.fresh("path_length", "int")
@@ -200,14 +203,19 @@ def as_setup(ctx):
     keys = [fresh_str(ctx, f"key{i}") for i in range(n)]
     # `d` is the target store itself (top-level call from __init__), a section of it (recursive calls), or an unrelated dict
     root = SymDict.fresh(ctx, "config")
-    if ctx.branch(ctx.fresh("d_is_the_store", "bool").t):
-        d, where = root, "d=store"
-    elif ctx.branch(ctx.fresh("d_is_a_section", "bool").t):
+    where = wheres[-1]
+    for cand in wheres[:-1]:
+        if ctx.branch(ctx.fresh("case_" + cand, "bool").t):
+            where = cand
+            break
+    if where == "d=store":
+        d = root
+    elif where == "d=section-of-store":
         sec = fresh_str(ctx, "section")
         ctx.assume(is_dict(root.tree(), sec))
-        d, where = SymDict(root.root, (sec.t,)), "d=section-of-store"
+        d = SymDict(root.root, (sec.t,))
     else:
-        d, where = SymDict.fresh(ctx, "d"), "d=other-dict"
+        d = SymDict.fresh(ctx, "d")
     return NS(self=V.Obj(SETCLS, dict(config=root, _record=[])), keys=keys, value=fresh_value(ctx), d=d, case=f"{n}-components,{where}")
 
 
@@ -307,11 +315,19 @@ def as_on_raise(s, E):
     return []
 
 
-C_ASSIGN = Contract(
-    f"{CFG}:set._assign", setup=unpruned(as_setup), ensures=as_ensures, snapshot=as_snapshot, modifies=as_modifies,
-    raises={TypeError: as_raises_typeerror}, on_raise=as_on_raise, recursive_by_contract=True,
-    note="path length enumerated 1..3; the recursive call is used through this contract (induction step at lengths 2 and 3)",
-)
+def as_contract(wheres):
+    tag = lambda s: f"[{s.case.split(',')[1]}]" if s.mode == "verify" else ""
+    return Contract(
+        f"{CFG}:set._assign", setup=unpruned(lambda ctx: as_setup(ctx, wheres)), ensures=lambda s: [(tag(s) + a, b) for a, b in as_ensures(s)],
+        snapshot=as_snapshot, modifies=as_modifies,
+        raises={TypeError: as_raises_typeerror}, on_raise=lambda s, E: [(tag(s) + a, b) for a, b in as_on_raise(s, E)], recursive_by_contract=True,
+        note="path length enumerated 1..3; the recursive call is used through this contract (induction step at lengths 2 and 3); " + ",".join(wheres),
+    )
+
+
+C_ASSIGN = as_contract(("d=store",))
+C_ASSIGN2 = as_contract(("d=section-of-store",))
+C_ASSIGN3 = as_contract(("d=other-dict",))
 
 
 # ------------------------------------------------------------------------------------------------
@@ -1212,7 +1228,9 @@ def up_snapshot(s):
 def up_ghost_verify(s):
     """Ghost of the verified body: canonical keys / intermediate states of the top-level items, nested ghosts from the recursive calls."""
     g = s.ctx.ghost
-    calls = g.get("cn_calls", [])[s.old.n_cn:]
+    h = s.old_handle
+    # canonical names computed IN `old` (calls on other dicts, e.g. on `defaults`, are not part of this ghost)
+    calls = [c for c in g.get("cn_calls", [])[s.old.n_cn:] if isinstance(c[1], SymDict) and c[1].root is h.root and c[1].path == h.path]
     subs = list(g.get("update_calls", [])[s.old.n_up:])
     items = s.new.items()
     if len(calls) != len(items):
@@ -1382,14 +1400,14 @@ C_MERGE = Contract(f"{CFG}:merge", setup=unpruned(mg_setup), ensures=mg_ensures,
 # ---- update_defaults
 
 
-def ud_setup(ctx, shapes=("flat1", "nested1", "device")):
+def ud_setup(ctx, shapes=("flat1", "nested1", "device"), ns=(0, 1, 2)):
     init_ctx(ctx)
     env = M.env_of(ctx)
     for f in M.istr_facts(env.cur):
         ctx.assume(f)
     override_globals(config=global_config(ctx), cp=M.CupyStub(), NUM_DEVICES=env.num)
-    n = 2
-    for cand in (0, 1):
+    n = ns[-1]
+    for cand in ns[:-1]:
         if ctx.branch(ctx.fresh(f"defaults_len_{cand}", "bool").t):
             n = cand
             break
@@ -1457,8 +1475,8 @@ def ud_rejected(s):
     return item_rejected(s, "device", s.items[0][1])
 
 
-def ud_contract(shapes):
-    return Contract(f"{CFG}:update_defaults", setup=unpruned(lambda ctx: ud_setup(ctx, shapes)), requires=ud_requires, ensures=ud_ensures, snapshot=ud_snapshot,
+def ud_contract(shapes, ns=(0, 1, 2)):
+    return Contract(f"{CFG}:update_defaults", setup=unpruned(lambda ctx: ud_setup(ctx, shapes, ns)), requires=ud_requires, ensures=ud_ensures, snapshot=ud_snapshot,
                     raises={Exception: ud_rejected},
                     on_raise=lambda s, E: [("rejected-device-default-leaves-store-and-defaults-stack-unchanged",
                                             AND(s.config.tree() == s.old.tree, s.config.root.writes == s.old.writes,
@@ -1467,7 +1485,8 @@ def ud_contract(shapes):
 
 
 C_UPDDEF = ud_contract(("flat1", "nested1"))
-C_UPDDEF2 = ud_contract(("device",))
+C_UPDDEF2 = ud_contract(("device",), (0, 1))
+C_UPDDEF3 = ud_contract(("device",), (2,))
 
 # ---- refresh
 
@@ -1513,8 +1532,8 @@ def rf_ensures(s):
 C_REFRESH = Contract(f"{CFG}:refresh", setup=unpruned(rf_setup), ensures=rf_ensures, snapshot=rf_snapshot,
                      note="0..3 opaque defaults; collect() is a parameter (empty, or an arbitrary user mapping); update is used through its contract")
 
-CONTRACTS = [C_CANON, C_ASSIGN, C_GET, C_VALIDATE, C_VALIDATE2, C_CHECK, C_CHECK2, C_INIT1, C_INIT2, C_INIT3, C_ENTER, C_SETDEV, C_GETDEV, C_DEVICE,
-             C_UPD_NEW, C_UPD_NEW2, C_UPD_OLD, C_UPD_OLD2, C_UPD_ND, C_UPD_ND2, C_MERGE, C_UPDDEF, C_UPDDEF2, C_REFRESH]
+CONTRACTS = [C_CANON, C_ASSIGN, C_ASSIGN2, C_ASSIGN3, C_GET, C_VALIDATE, C_VALIDATE2, C_CHECK, C_CHECK2, C_INIT1, C_INIT2, C_INIT3, C_ENTER, C_SETDEV, C_GETDEV, C_DEVICE,
+             C_UPD_NEW, C_UPD_NEW2, C_UPD_OLD, C_UPD_OLD2, C_UPD_ND, C_UPD_ND2, C_MERGE, C_UPDDEF, C_UPDDEF2, C_UPDDEF3, C_REFRESH]
 
 
 
@@ -2200,7 +2219,8 @@ for _c, _rt, _fam, _conc in (
         (C_CHECK2, rt_device, fam_device_via("check_key_val"), conc_device("val", "check_key_val")),
         (C_SETDEV, rt_device, fam_device_via("set"), conc_device("dev", "set")),
         (C_INIT1, rt_history, fam_history_small, None), (C_INIT2, rt_history, fam_history_small, None), (C_INIT3, rt_history, fam_history_small, None),
-        (C_ASSIGN, rt_history, fam_history_small, None), (C_GET, rt_history, fam_history_small, None),
+        (C_ASSIGN, rt_history, fam_history_small, None), (C_ASSIGN2, rt_history, fam_history_small, None), (C_ASSIGN3, rt_history, fam_history_small, None),
+        (C_GET, rt_history, fam_history_small, None), (C_UPDDEF3, rt_device, fam_device_via("update_defaults"), conc_device("dev", "update_defaults")),
         (C_GETDEV, rt_history, fam_history_small, None), (C_DEVICE, rt_history, fam_history_small, None),
         (C_UPD_NEW, rt_update, fam_update, None), (C_UPD_OLD, rt_update, fam_update, None), (C_UPD_ND, rt_update, fam_update, None),
         (C_UPD_NEW2, rt_update, fam_update, None), (C_UPD_OLD2, rt_update, fam_update, None), (C_UPD_ND2, rt_update, fam_update, None),
